@@ -1,19 +1,36 @@
 #!/usr/bin/env python3
-"""Print the markdown table of seeded changes from seeded/*/meta.json."""
-import glob, json, os
+"""Print the markdown table of seeded changes from seeded/*/meta.json.
+
+  tools/seed_table.py           compact table (DESIGN.md section 14)
+  tools/seed_table.py --full    with the full "needs to manifest" text
+"""
+import glob, json, os, re, sys
 here = os.path.dirname(os.path.dirname(os.path.abspath(__file__)))
+full = '--full' in sys.argv
 rows = []
+
+
+def short(text):
+    t = re.sub(r'\s+', ' ', text).strip()
+    t = re.sub(r'^#+ *[^ ]+ */ *[a-z0-9]+ *[-\u2014]+ *', '', t)          # "# C01 / m1 -- "
+    t = re.sub(r'^\*\*[^*]*\*\*:? *', lambda m: m.group(0).strip('* :') + ': ', t)
+    t = t.replace('|', '/')
+    if full or len(t) <= 170:
+        return t
+    cut = t[:170]
+    k = max(cut.rfind('. '), cut.rfind('; '), cut.rfind(', '))
+    return (cut[:k] if k > 90 else cut) + ' ...'
+
+
 for f in sorted(glob.glob(os.path.join(here, 'seeded', '*', 'meta.json'))):
     m = json.load(open(f))
     first = ''
     for c in m.get('caught_by', []):
         first = m['checks'][c]['first']
         break
-    import re
     cl = re.search(r'clause=([\w\.]+)', first)
-    need = m['needs_to_manifest'].replace('\n', ' ')
     rows.append('| %s | %s | %s | %s |' % (m['id'], ', '.join(m['caught_by']) or '**none**',
-                                           cl.group(1) if cl else '', need[:230].replace('|', '/')))
+                                           cl.group(1) if cl else '', short(m['needs_to_manifest'])))
 print('| seeded change | caught by (quick) | first failing clause | what it is / what it needs |')
 print('|---|---|---|---|')
 print('\n'.join(rows))
